@@ -1,3 +1,448 @@
 package main
 
-func checkCmd(args []string) int { return 0 }
+import (
+	"encoding/json"
+	"flag"
+	"fmt"
+	"os"
+	"os/exec"
+	"path/filepath"
+	"sort"
+	"strconv"
+	"strings"
+	"time"
+)
+
+const verifDir = "/verif"
+
+type KnownFinding struct {
+	Property   string `json:"property"`
+	Obligation string `json:"obligation"`
+	What       string `json:"what"`
+	Witness    string `json:"witness,omitempty"`
+}
+
+type FixedEntry struct {
+	Property   string `json:"property"`
+	Obligation string `json:"obligation"`
+	Commit     string `json:"commit"`
+	What       string `json:"what_failed"`
+}
+
+type FindingsFile struct {
+	Known []KnownFinding `json:"known_findings"`
+	Fixed []FixedEntry   `json:"fixed"`
+}
+
+type LockFile map[string]map[string]string // property -> obligation id -> expected status
+
+func readJSON(path string, v any) error {
+	b, err := os.ReadFile(path)
+	if err != nil {
+		return err
+	}
+	return json.Unmarshal(b, v)
+}
+
+func writeJSON(path string, v any) error {
+	b, err := json.MarshalIndent(v, "", " ")
+	if err != nil {
+		return err
+	}
+	return os.WriteFile(path, append(b, '\n'), 0o644)
+}
+
+type oblReport struct {
+	ID     string  `json:"id"`
+	Kind   string  `json:"kind"`
+	Status string  `json:"status"`
+	Solver string  `json:"solver,omitempty"`
+	Secs   float64 `json:"solver_s"`
+	SMT    int     `json:"smt_bytes"`
+	Pos    string  `json:"at,omitempty"`
+}
+
+func hasProp(ps []string, p string) bool {
+	for _, x := range ps {
+		if x == p {
+			return true
+		}
+	}
+	return false
+}
+
+func checkCmd(args []string) int {
+	fs := flag.NewFlagSet("check", flag.ExitOnError)
+	relock := fs.Bool("relock", false, "rewrite the lock entry of this property from the current results")
+	keep := fs.Bool("keep", false, "keep SMT files")
+	fs.Parse(args)
+	if fs.NArg() < 1 {
+		fmt.Fprintln(os.Stderr, "usage: gvc check [-relock] <property> [quick|thorough]")
+		return 2
+	}
+	prop := fs.Arg(0)
+	tier := "quick"
+	if fs.NArg() > 1 {
+		tier = fs.Arg(1)
+	}
+	if t := os.Getenv("VERIF_TIER"); t != "" && fs.NArg() < 2 {
+		tier = t
+	}
+	seed := 0
+	if s := os.Getenv("VERIF_SEED"); s != "" {
+		seed, _ = strconv.Atoi(s)
+	}
+	t0 := time.Now()
+	timeout := 20
+	needAll := false
+	if tier == "thorough" {
+		timeout = 90
+		needAll = true
+	}
+	evPath := filepath.Join(verifDir, "evidence", prop+".json")
+	os.MkdirAll(filepath.Dir(evPath), 0o755)
+	os.Remove(evPath)
+	fail := func(msg string) int {
+		// a broken check: report it loudly, never as a pass
+		fmt.Printf("CHECK-BROKEN property=%s %s\n", prop, msg)
+		rp := writeReplay(prop, "check-broken", map[string]any{"reason": msg})
+		fmt.Printf("VIOLATION property=%s replay=%s no-failing-input-found\n", prop, rp)
+		writeEvidence(evPath, prop, tier, seed, time.Since(t0).Seconds(), nil, nil, nil, 1, []string{"check broken: " + msg}, nil)
+		return 1
+	}
+	s, err := newSession(false)
+	if err != nil {
+		return fail("the contract files no longer load or type-check against the code: " + firstLines(err.Error(), 6))
+	}
+	e := s.e
+	var lock LockFile
+	readJSON(filepath.Join(verifDir, "obligations.lock"), &lock)
+	if lock == nil {
+		lock = LockFile{}
+	}
+	var findings FindingsFile
+	readJSON(filepath.Join(verifDir, "known-findings.json"), &findings)
+
+	var all []*Obligation
+	var funcs, outside []string
+	notes := map[string]int{}
+	unmod := map[string]int{}
+	models := map[string]bool{}
+	type solveJob struct {
+		r    *FuncResult
+		obls []*Obligation
+	}
+	var jobs []solveJob
+	execS := 0.0
+	for _, c := range s.contractsSorted() {
+		if !hasProp(c.allProps(), prop) {
+			continue
+		}
+		if c.Trusted {
+			notes["trusted contract (assumed, body not verified): "+c.Key]++
+			continue
+		}
+		if c.Inline && len(c.Ensures)+len(c.Requires) == 0 && len(c.Modifies) == 0 {
+			continue // loop specifications of an inlined function: checked in its callers
+		}
+		t1 := time.Now()
+		r := e.verifyFunction(c, s.init)
+		execS += time.Since(t1).Seconds()
+		funcs = append(funcs, r.Fn)
+		if r.Err != "" {
+			outside = append(outside, r.Fn+": "+r.Err)
+		}
+		for k, n := range r.Notes {
+			notes[k] += n
+		}
+		for k, n := range r.Unmod {
+			unmod[k] += n
+		}
+		for _, m := range r.Models {
+			models[m] = true
+		}
+		var mine []*Obligation
+		for _, o := range r.Obls {
+			if hasProp(o.Props, prop) {
+				mine = append(mine, o)
+			}
+		}
+		staticDischarge(mine)
+		jobs = append(jobs, solveJob{r, mine})
+		all = append(all, mine...)
+	}
+	smtDir, _ := os.MkdirTemp("", "gvc-"+prop+"-")
+	if !*keep {
+		defer os.RemoveAll(smtDir)
+	}
+	for _, j := range jobs {
+		e.solveObligations(j.obls, j.r.Axioms, j.r.Assumes, filepath.Join(smtDir, sanitize(j.r.Fn)), timeout, 5, needAll)
+	}
+	if len(all) == 0 {
+		return fail("no obligations were generated for this property (vacuous check)")
+	}
+	if len(outside) > 0 && !*relock {
+		// a function under contract left the supported subset: its obligations
+		// are incomplete, which the lock comparison below reports
+		for _, o := range outside {
+			fmt.Printf("NOTE outside-subset %s\n", o)
+		}
+	}
+	// classification
+	known := map[string]KnownFinding{}
+	for _, k := range findings.Known {
+		if k.Property == prop {
+			known[k.Obligation] = k
+		}
+	}
+	seen := map[string]bool{}
+	var reports []oblReport
+	var discharged, claimed, violations int
+	perSolver := map[string]int{}
+	solverSecs := 0.0
+	var knownPrinted []string
+	var violLines []string
+	for _, o := range all {
+		seen[o.ID] = true
+		ok := false
+		if o.Cover {
+			ok = o.Status == "sat" || o.Status == "unknown" || o.Status == "timeout"
+			if o.Status == "unsat" {
+				ok = false
+			}
+		} else {
+			ok = o.Status == "unsat" || o.Status == "static"
+		}
+		reports = append(reports, oblReport{o.ID, o.Kind, o.Status, o.Solver, o.Time, o.SMTLen, o.Pos})
+		solverSecs += o.Time
+		if o.Solver != "" {
+			perSolver[o.Solver]++
+		}
+		if kf, isKnown := known[o.ID]; isKnown {
+			if !ok {
+				line := fmt.Sprintf("KNOWN-FINDING: property=%s %s: %s", prop, o.ID, kf.What)
+				fmt.Println(line)
+				knownPrinted = append(knownPrinted, o.ID)
+			}
+			continue
+		}
+		claimed++
+		if ok {
+			discharged++
+			continue
+		}
+		violations++
+		why := "obligation not discharged: solver answered " + o.Status
+		if o.Cover && o.Status == "unsat" {
+			why = "vacuity guard failed: the preconditions/paths of this function are contradictory"
+		}
+		rp, replayed := e.replayObligation(prop, o, why)
+		suffix := ""
+		if !replayed {
+			suffix = " no-failing-input-found"
+		}
+		violLines = append(violLines, fmt.Sprintf("VIOLATION property=%s replay=%s%s", prop, rp, suffix))
+		fmt.Printf("FAILED %s [%s] %s\n", o.ID, o.Status, o.Pos)
+	}
+	// locked obligations that disappeared
+	if !*relock {
+		var missing []string
+		for id := range lock[prop] {
+			if !seen[id] && !isOrdinalKind(id) {
+				missing = append(missing, id)
+			}
+		}
+		sort.Strings(missing)
+		for _, id := range missing {
+			if _, isKnown := known[id]; isKnown {
+				continue
+			}
+			violations++
+			rp := writeReplay(prop, id, map[string]any{"obligation": id, "reason": "this obligation was discharged on the unchanged tree and can no longer be generated (function or contract target changed, or the function left the supported subset)", "outside_subset": outside})
+			violLines = append(violLines, fmt.Sprintf("VIOLATION property=%s replay=%s no-failing-input-found", prop, rp))
+			fmt.Printf("MISSING %s\n", id)
+		}
+	}
+	for _, l := range violLines {
+		fmt.Println(l)
+	}
+	if *relock {
+		m := map[string]string{}
+		for _, o := range all {
+			if _, isKnown := known[o.ID]; isKnown {
+				continue
+			}
+			m[o.ID] = o.Status
+		}
+		lock[prop] = m
+		writeJSON(filepath.Join(verifDir, "obligations.lock"), lock)
+	}
+	var tb []string
+	for mname := range models {
+		tb = append(tb, "model:"+mname)
+	}
+	for k := range notes {
+		if strings.HasPrefix(k, "axiom:") || strings.HasPrefix(k, "model:") || strings.HasPrefix(k, "trusted") || strings.HasPrefix(k, "assume") {
+			tb = append(tb, k)
+		}
+	}
+	sort.Strings(tb)
+	cov := map[string]any{
+		"functions_under_contract": funcs,
+		"per_solver":               perSolver,
+		"solver_seconds":           round2(solverSecs),
+		"vc_generation_seconds":    round2(execS),
+		"unmodelled_calls":         unmod,
+		"outside_subset":           outside,
+		"known_findings":           knownPrinted,
+		"engine_notes":             notes,
+	}
+	writeEvidence(evPath, prop, tier, seed, time.Since(t0).Seconds(), reports, cov, tb, violations, nil, &[2]int{claimed, discharged})
+	fmt.Printf("property %s (%s): %d obligations, %d discharged, %d known findings, %d violations, %.1fs\n", prop, tier, claimed, discharged, len(knownPrinted), violations, time.Since(t0).Seconds())
+	if violations > 0 {
+		return 1
+	}
+	return 0
+}
+
+func isOrdinalKind(id string) bool {
+	return strings.Contains(id, "/frame:")
+}
+
+func round2(x float64) float64 { return float64(int(x*100+0.5)) / 100 }
+
+func firstLines(s string, n int) string {
+	ls := strings.Split(s, "\n")
+	if len(ls) > n {
+		ls = ls[:n]
+	}
+	return strings.Join(ls, " | ")
+}
+
+func writeReplay(prop, id string, payload map[string]any) string {
+	dir := filepath.Join(verifDir, "replays")
+	os.MkdirAll(dir, 0o755)
+	name := sanitize(prop + "_" + id)
+	if len(name) > 150 {
+		name = name[:150]
+	}
+	p := filepath.Join(dir, name+".json")
+	payload["property"] = prop
+	writeJSON(p, payload)
+	return p
+}
+
+func writeEvidence(path, prop, tier string, seed int, wall float64, reports []oblReport, cov map[string]any, trusted []string, violations int, extraAssump []string, counts *[2]int) {
+	if cov == nil {
+		cov = map[string]any{}
+	}
+	nObl, nDis := 0, 0
+	if counts != nil {
+		nObl, nDis = counts[0], counts[1]
+	}
+	cov["obligations"] = nObl
+	cov["discharged"] = nDis
+	cov["checker_cmd"] = fmt.Sprintf("/verif/bin/gvc check %s %s  (obligations: one SMT-LIB file each, raced on z3 5.1.0 (z3-new), cvc5 1.0 --strings-exp, z3 4.8.12)", prop, tier)
+	if trusted == nil {
+		trusted = []string{}
+	}
+	cov["trusted_base"] = trusted
+	var samples []any
+	for i, r := range reports {
+		if i%(len(reports)/6+1) == 0 {
+			samples = append(samples, r)
+		}
+	}
+	if samples == nil {
+		samples = []any{}
+	}
+	cov["samples"] = samples
+	cov["all_obligations"] = reports
+	cov["not_decided"] = notDecided[prop]
+	assumptions := append([]string{}, globalAssumptions...)
+	assumptions = append(assumptions, propAssumptions[prop]...)
+	assumptions = append(assumptions, extraAssump...)
+	ev := map[string]any{
+		"property_id": prop,
+		"tier":        tier,
+		"seed":        seed,
+		"level":       "proof",
+		"coverage":    cov,
+		"assumptions": assumptions,
+		"wall_s":      round2(wall),
+		"violations":  violations,
+	}
+	writeJSON(path, ev)
+}
+
+var globalAssumptions = []string{
+	"gvc's own translation of go/ssa to verification conditions is trusted (largest trusted component); integers are mathematical (no overflow; unsigned narrowing conversions are exact mod 2^w)",
+	"[]byte values are modelled as immutable byte strings (a store into a byte slice puts a function outside the subset)",
+	"library functions behave as their models in /verif/gvc/models*.go state (listed under coverage.trusted_base)",
+	"pointers to scalars held in the heap or passed to a function under contract point to standalone variables unless their origin is syntactically visible",
+	"append never writes into memory that another live slice can observe (spare-capacity writes are invisible)",
+	"interface-typed inputs (the destination writer, callbacks) have dynamic types outside the program",
+	"the file system does not change during one call (fsContent, fsMode, fsMTime, fsExists are functions of the path)",
+}
+
+var propAssumptions = map[string][]string{}
+var notDecided = map[string][]string{}
+
+// replayObligation writes the replay file of a failed obligation and, where a
+// model is available and the function's inputs can be materialised, runs the
+// real code on it.  It reports whether a failing input was confirmed.
+func (e *Engine) replayObligation(prop string, o *Obligation, why string) (string, bool) {
+	payload := map[string]any{
+		"obligation":    o.ID,
+		"kind":          o.Kind,
+		"function":      o.Fn,
+		"at":            o.Pos,
+		"reason":        why,
+		"solver":        o.Solver,
+		"solver_status": o.Status,
+		"solver_output": truncate(o.Model, 20000),
+		"all_solvers":   o.allSolvers,
+	}
+	confirmed := false
+	if o.Status == "sat" && !o.Cover {
+		if out, ok, test := e.tryReplay(o); test != "" {
+			payload["replay_test"] = test
+			payload["replay_output"] = truncate(out, 8000)
+			payload["replay_confirmed"] = ok
+			confirmed = ok
+		}
+	}
+	rp := writeReplay(prop, o.ID, payload)
+	return rp, confirmed
+}
+
+func truncate(s string, n int) string {
+	if len(s) > n {
+		return s[:n] + "\n...[truncated]"
+	}
+	return s
+}
+
+// runCmd runs a command with a timeout and returns combined output.
+func runCmd(dir string, timeout time.Duration, env []string, name string, args ...string) (string, error) {
+	cmd := exec.Command(name, args...)
+	cmd.Dir = dir
+	cmd.Env = append(os.Environ(), env...)
+	done := make(chan struct{})
+	var out []byte
+	var err error
+	go func() {
+		out, err = cmd.CombinedOutput()
+		close(done)
+	}()
+	select {
+	case <-done:
+	case <-time.After(timeout):
+		if cmd.Process != nil {
+			cmd.Process.Kill()
+		}
+		<-done
+		return string(out), fmt.Errorf("timeout")
+	}
+	return string(out), err
+}
